@@ -28,9 +28,9 @@ Qed.
 (* the composition theorems at the built-in index *)
 Theorem no_panic_builtin snell_inv sd_t sd_p U minpos c :
   (forall b e cs, snell_inv b e cs <> None) ->
-  no_total_internal_reflection builtin_index_of snell_inv sd_t sd_p c ->
+  (ConfigSites.cfg_checks_total_reflection = false -> no_total_internal_reflection builtin_index_of snell_inv sd_t sd_p c) ->
   angle_search_defined builtin_index_of snell_inv sd_t sd_p c ->
-  period_search_defined_at builtin_index_of snell_inv sd_t sd_p c ->
+  (ConfigSites.searches_cannot_fail = false -> period_search_defined_at builtin_index_of snell_inv sd_t sd_p c) ->
   is_panic (try_as_spdc_now R_ops U (oracles_of_model builtin_index_of snell_inv sd_t sd_p) minpos c) = false.
 Proof. apply no_panic_composed. Qed.
 
